@@ -426,7 +426,7 @@ def _vecref_into_iter(eng, st, args, ci):
 @intrinsic(r'^<.* as (std::iter::)?IntoIterator>::into_iter$', 'IntoIterator for iterators (identity)')
 def _into_iter_id(eng, st, args, ci):
     a = args[0]
-    if isinstance(a, Tup) and a.name in ('SliceIter', 'Peekable', 'ValuesMut', 'Rev', 'Enumerate', 'Zip', 'Filter', 'Map', 'RangeIter'):
+    if isinstance(a, Tup) and a.name in ('SliceIter', 'Peekable', 'ValuesMut', 'Rev', 'Enumerate', 'Zip', 'Filter', 'Map', 'RangeIter', 'Range', 'CharsIter'):
         return a
     if isinstance(a, Ref):
         v = eng.read_ref(st, a)
@@ -773,3 +773,131 @@ def _str_eq(eng, st, args, ci):
     else:
         r = str_expr(a) == str_expr(b)
     return r if ci.func.endswith('::eq') else z3.Not(r)
+
+
+# ---------------------------------------------------------------- ranges, string slicing, String building
+
+@intrinsic(r'^<std::ops::Range<(usize|u32|i32|isize)> as (std::iter::)?IntoIterator>::into_iter$', 'Range<int>::into_iter')
+def _range_into_iter(eng, st, args, ci):
+    return args[0]
+
+
+@intrinsic(r'^<std::ops::Range<(usize|u32|i32|isize)> as (std::iter::)?Iterator>::next$', 'Range<int>::next (forks on start < end)')
+def _range_next(eng, st, args, ci):
+    r = args[0]
+    rng = eng.read_ref(st, r)
+    start, end = rng.items
+    lt = (start.e < end.e) if start.signed else z3.ULT(start.e, end.e)
+    alts = []
+    can_some = eng.feasible(st, lt)
+    can_none = eng.feasible(st, z3.Not(lt))
+    if can_some and can_none:
+        s2 = st.fork()
+        s2.assume(z3.Not(lt))
+        alts.append((s2, NONE))
+    if can_some:
+        if can_none:
+            st.assume(lt)
+        eng.write_ref(st, r, Tup([BV(start.e + 1, start.ty), end], rng.name))
+        alts.append((st, some(start)))
+    elif can_none:
+        alts.append((st, NONE))
+    return Forks(alts)
+
+
+@intrinsic(r'^std::ops::RangeInclusive::<usize>::new$', 'RangeInclusive::new')
+def _range_incl_new(eng, st, args, ci):
+    return Tup([args[0], args[1]], 'RangeInclusive')
+
+
+def _str_index(eng, st, s, start, end_excl, ci, what):
+    """&s[start..end_excl] with the std panics as obligations; s must be a concrete ASCII string"""
+    while isinstance(s, Ref):
+        s = eng.read_ref(st, s)
+    if isinstance(s, Tup) and s.name == 'StrSlice':
+        base, b0, b1 = s.items
+        n_e = b1.e - b0.e
+        off = b0.e
+        sv = base
+    elif isinstance(s, StrVal) and s.s is not None and all(ord(c) < 128 for c in s.s):
+        n_e = z3.BitVecVal(len(s.s), 64)
+        off = z3.BitVecVal(0, 64)
+        sv = s
+    else:
+        raise Unsupported('str slicing of non-constant / non-ASCII %r' % (s,))
+    ok = z3.And(z3.ULE(start, end_excl), z3.ULE(end_excl, n_e))
+    res = []
+    if eng.feasible(st, z3.Not(ok)):
+        sp = st.fork()
+        sp.assume(z3.Not(ok))
+        res.append((sp, 'panic', {'msg': 'str slice index out of range (%s)' % what, 'fn': ci.fn.name if ci.fn else '?', 'bb': ci.bb, 'kind': 'str-index'}))
+    if eng.feasible(st, ok):
+        st.assume(ok)
+        res.append((st, 'ret', Tup([sv, BV(off + start, 'usize'), BV(off + end_excl, 'usize')], 'StrSlice')))
+    return res
+
+
+@intrinsic(r'^<str as (std::ops::)?Index<std::ops::RangeInclusive<usize>>>::index$', 'str[a..=b] (bounds obligations; constant ASCII string)')
+def _str_index_incl(eng, st, args, ci):
+    s, r = args
+    a, b = r.items
+    # a..=b panics if b == usize::MAX, else behaves as a..b+1
+    res = []
+    mx = b.e == z3.BitVecVal((1 << 64) - 1, 64)
+    if eng.feasible(st, mx):
+        sp = st.fork()
+        sp.assume(mx)
+        res.append((sp, 'panic', {'msg': 'str slice end overflow', 'fn': ci.fn.name if ci.fn else '?', 'bb': ci.bb, 'kind': 'str-index'}))
+        st.assume(z3.Not(mx))
+    return res + _str_index(eng, st, s, a.e, b.e + 1, ci, 'a..=b')
+
+
+@intrinsic(r'^<(std::borrow::)?Cow<.*str> as (std::convert::)?From<.*>>::from$', 'Cow<str>::from (same value)')
+def _cow_from(eng, st, args, ci):
+    return args[0]
+
+
+@intrinsic(r'^(std::string::)?String::(new|with_capacity)$', 'String::new/with_capacity (empty char sequence)')
+def _string_new(eng, st, args, ci):
+    return Seq([])
+
+
+@intrinsic(r'^(std::string::)?String::push$', 'String::push (char sequence)')
+def _string_push(eng, st, args, ci):
+    v = eng.read_ref(st, args[0])
+    if isinstance(v, Seq):
+        eng.write_ref(st, args[0], Seq(v.items + (args[1],)))
+        return UNIT
+    if isinstance(v, (Opaque, StrVal)):
+        return UNIT   # contents of an uninterpreted string are not tracked
+    raise Unsupported('String::push on %r' % (v,))
+
+
+@intrinsic(r'^(std::string::)?String::clear$', 'String::clear')
+def _string_clear(eng, st, args, ci):
+    v = eng.read_ref(st, args[0])
+    if isinstance(v, Seq):
+        eng.write_ref(st, args[0], Seq([]))
+    return UNIT
+
+
+@intrinsic(r'^(std|core)::option::Option::<.*>::ok_or_else::<', 'Option::ok_or_else (closure body = real MIR)')
+def _opt_ok_or_else(eng, st, args, ci):
+    v, f = args
+
+    def on_none(s):
+        out = []
+        for (s2, kind, val) in eng.call_value(s, f, [], None):
+            out.append((s2, kind, Enum('Result', 1, {1: Tup([val])}) if kind == 'ret' else val))
+        return out
+    return _fork_on_option(eng, st, v, lambda s, x: [(s, 'ret', Enum('Result', 0, {0: Tup([x])}))], on_none)
+
+
+@intrinsic(r'^(std|core)::option::Option::<.*>::ok_or::<', 'Option::ok_or')
+def _opt_ok_or(eng, st, args, ci):
+    v, e = args
+    d = z3.If(v.discr == 1, z3.BitVecVal(0, 64), z3.BitVecVal(1, 64))
+    pl = {1: Tup([e])}
+    if 1 in v.payloads:
+        pl[0] = v.payloads[1]
+    return Enum('Result', d, pl)
